@@ -410,7 +410,15 @@ def main():
         if 'labels' not in r:
             continue
         failing_ids = set()
+        # an item whose proof hints (ghost updates, lemma calls) could not be placed because their anchor text is gone has been
+        # restructured: its obligations are then checked without the proof, and a failure there says nothing about the code.
+        # Such failures are reported as undecided, never as violations.
+        lost_items = set(it['id'] for it in r.get('items', []) if any(a.startswith('hint-anchor-lost') for a, _ in it['rules']))
         for f in r['failures']:
+            if f.get('item') in lost_items and (set(deps) & set(f['tags'])):
+                undecided.append({'unit': r['unit'], 'status': 'undecided',
+                                  'reason': 'obligation %s fails, but proof hints of %s lost their anchors (the function was restructured): not decided' % (f['id'], f['item'])})
+                continue
             if set(deps) & set(f['tags']):
                 failing_ids.add(f['id'])
                 if f['id'] in kf:
